@@ -23,6 +23,10 @@ type RenderOpts struct {
 	// spells a type or class keyword (known finding comment-resets-rrtype). KeywordLike decides.
 	NoCommentBeforeKeywordRdata bool
 	KeywordLike                 func(token string) bool
+	// AvoidEscapedOnly: a name token that consists of nothing but backslash-escaped blanks,
+	// semicolons, parentheses, quotes and backslashes gets its first octet written as \DDD
+	// (known finding escaped-only-token).
+	AvoidEscapedOnly bool
 	OnExcluded         func(class string)
 }
 
@@ -395,9 +399,33 @@ func (r *renderer) nameText(n MName) string {
 	case Prev:
 		return ""
 	case Rel:
-		return r.spellLabels(n.Labels, false)
+		s := r.spellLabels(n.Labels, false)
+		if escapedOnly(s) {
+			if r.o.AvoidEscapedOnly {
+				if r.o.OnExcluded != nil {
+					r.o.OnExcluded("escaped-only-token")
+				}
+				return fmt.Sprintf("\\%03d", s[1]) + s[2:]
+			}
+			r.use("escaped-only-token")
+		}
+		return s
 	}
 	return r.spellLabels(n.Labels, true)
+}
+
+// escapedOnly: the text is a sequence of backslash pairs whose second character is a blank,
+// semicolon, parenthesis, quote or backslash.
+func escapedOnly(s string) bool {
+	if len(s) == 0 || len(s)%2 != 0 {
+		return false
+	}
+	for i := 0; i < len(s); i += 2 {
+		if s[i] != '\\' || strings.IndexByte(" \t;()\"\\", s[i+1]) < 0 {
+			return false
+		}
+	}
+	return true
 }
 
 // ---------------------------------------------------------------------------------------------
